@@ -68,23 +68,58 @@ Proof.
     + rewrite get_put_neq in G' by auto. now apply (U o' ob').
 Qed.
 
-Lemma Pres_freeze : forall n o, Pres (freeze n o).
+Lemma Pres_gets0 : forall {A} (f : state -> A), Pres (gets f).
+Proof. intros A f st H. simpl. auto. Qed.
+
+Lemma Pres_freeze_tuples : forall cfg o, Pres (freeze_tuples cfg o).
 Proof.
-  induction n as [|n IH]; intros o; simpl; [apply Pres_raise|].
+  intros cfg o. unfold freeze_tuples. destruct (gtuple cfg); [|apply Pres_ret].
+  apply Pres_bind; [apply Pres_gets0|]. intros [[k attrs]|]; [|apply Pres_ret].
+  apply Pres_bind; [|intros; apply Pres_ret].
+  apply Pres_mapM. intros [kk v]. simpl. destruct v as [p|c|t]; try apply Pres_ret.
+  apply Pres_bind; [apply Pres_gets0|]. intros [|]; [apply Pres_set_frozen|apply Pres_ret].
+Qed.
+
+Lemma Pres_freeze : forall cfg n o, Pres (freeze cfg n o).
+Proof.
+  intros cfg. induction n as [|n IH]; intros o; simpl; [apply Pres_raise|].
   apply Pres_bind; [apply Coh_Pres, Coh_call_direct|]. intros c.
   apply Pres_bind; [apply Coh_Pres, Coh_as_list|]. intros l.
-  apply Pres_bind; [|intros; apply Pres_set_frozen].
-  apply Pres_mapM. intros it. destruct (Nat.eqb (item_oid it) o); [apply Pres_ret|apply IH].
+  apply Pres_bind.
+  { apply Pres_mapM. intros it. destruct (Nat.eqb (item_oid it) o); [apply Pres_ret|apply IH]. }
+  intros _. apply Pres_bind; [apply Pres_freeze_tuples|]. intros; apply Pres_set_frozen.
 Qed.
 
 (* unfreeze *)
 Definition empty_except (S : list nat) (st : state) : Prop :=
   forall o ob, get st o = Some ob -> ofrozen ob = false -> In o S \/ ocache ob = [].
 
-Lemma unfreeze_st_ok : forall n o st S, valid st -> empty_except S st ->
-  valid (unfreeze_st n o st) /\ empty_except S (unfreeze_st n o st) /\ thaw (unfreeze_st n o st) = thaw st.
+Lemma thaw_tuple_ok : forall S t s, valid s -> empty_except S s ->
+  valid (thaw_tuple s t) /\ empty_except S (thaw_tuple s t) /\ thaw (thaw_tuple s t) = thaw s.
 Proof.
-  induction n as [|n IH]; intros o st S V E; simpl; auto.
+  intros S t s V E. unfold thaw_tuple. destruct (get s t) as [tb|] eqn:G; auto.
+  assert (T : thaw (put s t (with_cache (with_frozen tb false) [])) = thaw s) by (now apply (thaw_put s t tb)).
+  split; [|split; auto].
+  - apply (valid_mono s); auto. intros o' ob' k v G' F' L. destruct (Nat.eq_dec t o') as [->|Hne].
+    + rewrite (get_put_eq _ _ _ _ G) in G'. injection G' as <-. simpl in F'. discriminate.
+    + rewrite get_put_neq in G' by auto. exists ob'. auto.
+  - intros o' ob' G' F'. destruct (Nat.eq_dec t o') as [->|Hne].
+    + rewrite (get_put_eq _ _ _ _ G) in G'. injection G' as <-. now right.
+    + rewrite get_put_neq in G' by auto. now apply (E o' ob').
+Qed.
+
+Lemma thaw_tuples_ok : forall S ts s, valid s -> empty_except S s ->
+  valid (fold_left thaw_tuple ts s) /\ empty_except S (fold_left thaw_tuple ts s) /\ thaw (fold_left thaw_tuple ts s) = thaw s.
+Proof.
+  intros S. induction ts as [|t ts IH]; intros s V E; simpl; auto.
+  destruct (thaw_tuple_ok S t s V E) as (V1 & E1 & T1). destruct (IH _ V1 E1) as (V2 & E2 & T2).
+  split; auto. split; auto. congruence.
+Qed.
+
+Lemma unfreeze_st_ok : forall cfg n o st S, valid st -> empty_except S st ->
+  valid (unfreeze_st cfg n o st) /\ empty_except S (unfreeze_st cfg n o st) /\ thaw (unfreeze_st cfg n o st) = thaw st.
+Proof.
+  intros cfg. induction n as [|n IH]; intros o st S V E; simpl; auto.
   destruct (get st o) as [ob|] eqn:G; auto.
   set (st1 := put st o (with_frozen ob false)).
   assert (T1 : thaw st1 = thaw st) by (now apply (thaw_put st o ob)).
@@ -96,15 +131,21 @@ Proof.
   { intros o' ob' G' F'. destruct (Nat.eq_dec o o') as [->|Hne]; [left; now left|].
     unfold st1 in G'. rewrite get_put_neq in G' by auto. destruct (E o' ob' G' F'); auto. left. now right. }
   assert (Hfold : forall kids s, valid s -> empty_except (o :: S) s ->
-            let s' := fold_left (fun s c => if Nat.eqb c o then s else unfreeze_st n c s) kids s in
+            let s' := fold_left (fun s c => if Nat.eqb c o then s else unfreeze_st cfg n c s) kids s in
             valid s' /\ empty_except (o :: S) s' /\ thaw s' = thaw s).
   { induction kids as [|c kids IHk]; intros s Vs Es; simpl; auto.
     destruct (Nat.eqb c o).
     - apply IHk; auto.
     - destruct (IH c s (o :: S) Vs Es) as (V' & E' & T').
       destruct (IHk _ V' E') as (V'' & E'' & T''). split; auto. split; auto. congruence. }
-  destruct (Hfold (pm_children st1 (oattrs ob)) st1 V1 E1) as (V2 & E2 & T2).
-  set (st2 := fold_left _ _ st1) in *.
+  destruct (Hfold (pm_children st1 (oattrs ob)) st1 V1 E1) as (V2' & E2' & T2').
+  set (st2' := fold_left _ _ st1) in *.
+  assert (H3 : let s3 := (if gtuple cfg then fold_left thaw_tuple (tuple_children st2' (oattrs ob)) st2' else st2') in
+               valid s3 /\ empty_except (o :: S) s3 /\ thaw s3 = thaw st2').
+  { destruct (gtuple cfg); simpl; auto. now apply thaw_tuples_ok. }
+  destruct H3 as (V2 & E2 & T2x).
+  set (st2 := if gtuple cfg then _ else _) in *.
+  assert (T2 : thaw st2 = thaw st1) by congruence.
   destruct (get st2 o) as [ob2|] eqn:G2.
   - assert (T3 : thaw (put st2 o (with_cache ob2 [])) = thaw st2) by (now apply (thaw_put st2 o ob2)).
     split; [|split; [|congruence]].
@@ -118,10 +159,10 @@ Proof.
     intros o' ob' G' F'. destruct (E2 o' ob' G' F') as [[->|H]|H]; auto. congruence.
 Qed.
 
-Lemma Pres_unfreeze : forall n o, Pres (unfreeze n o).
+Lemma Pres_unfreeze : forall cfg n o, Pres (unfreeze cfg n o).
 Proof.
-  intros n o st [V U]. unfold unfreeze. simpl.
-  destruct (unfreeze_st_ok n o st [] V) as (V' & E' & T').
+  intros cfg n o st [V U]. unfold unfreeze. simpl.
+  destruct (unfreeze_st_ok cfg n o st [] V) as (V' & E' & T').
   - intros o' ob' G' F'. right. now apply (U o' ob').
   - split; auto. split; auto. intros o' ob' G' F'. destruct (E' o' ob' G' F') as [[]|]; auto.
 Qed.
@@ -496,9 +537,11 @@ Proof.
   destruct (okind ob).
   - destruct (ofrozen ob); [apply Frm_raise|]. apply Frm_bind; [apply Frm_gets|]. intros [|]; [apply Frm_raise|].
     destruct (has_us name); [|apply Frm_modify; intros; auto].
-    apply Frm_bind; [apply Frm_gets|]. intros tl. destruct (filter _ tl); [|destruct (smemb _ _)]; apply Frm_modify; intros; auto.
+    apply Frm_bind; [apply Frm_gets|]. intros tl. destruct (filter _ tl); [apply Frm_modify; intros; auto|].
+    destruct (smemb _ _); [apply Frm_modify; intros; auto|].
+    apply Frm_bind; [apply Frm_gets|]. intros tf. destruct (gtuple cfg && tf); [apply Frm_raise|apply Frm_modify; intros; auto].
   - destruct (ofrozen ob); [apply Frm_raise|]. apply Frm_modify; intros; auto.
-  - apply Frm_modify; intros; auto.
+  - destruct (gtuple cfg && ofrozen ob); [apply Frm_raise|]. apply Frm_modify; intros; auto.
 Qed.
 
 Lemma Frm_op_append : forall o v, Frm (op_append o v).
@@ -508,9 +551,10 @@ Proof.
   apply Frm_modify; intros; auto.
 Qed.
 
-Lemma Frm_op_del : forall o name, Frm (op_del o name).
+Lemma Frm_op_del : forall cfg o name, Frm (op_del cfg o name).
 Proof.
   intros. unfold op_del. apply Frm_bind; [apply Frm_gets|]. intros [ob|]; [|apply Frm_raise].
+  destruct (del_guarded cfg (okind ob) && ofrozen ob); [apply Frm_raise|].
   destruct (sassoc name (oattrs ob)); [|apply Frm_raise]. apply Frm_modify; intros; auto.
 Qed.
 
